@@ -24,7 +24,7 @@ def groups():
             raise Refuse(f"{cls}.__call__: {src}")
     out.append("Definition gen_binar (is_merge_group : bool) : bool := is_merge_group.")
     init = ast.unparse(find_func(lg, "__init__", "LabelGroup"))
-    for need in ["assert np.all([v > 0 for v in self.__value_labels])", "value_labels = sorted(set(value_labels))",
+    for need in ["assert all((v > 0 for v in self.__value_labels))", "value_labels = sorted(set(value_labels))",
                  "assert not self.__single_instance or len(value_labels) == 1"]:     # normalised spelling of `if single: assert ..`
         if need not in init:
             raise Refuse("LabelGroup.__init__: missing " + need.split("\n")[0])
